@@ -26,8 +26,17 @@ LEVEL_TEXT = (
 )
 
 
+READER_LIST = ["event_list"]
+
+
 def run(ctx) -> None:
     P = ctx.P
+    from ..model import returned_name as _rn
+
+    _rf = P.find_method("Inotify", "read_events")
+    if _rf is None or _rn(_rf.node) is None:
+        raise AnalysisError("read_events: returned list not identified")
+    READER_LIST[0] = _rn(_rf.node)
     RX = ctx.rule(
         "C07/thread-body-exception-flow",
         "no KeyError from a lookup on the history-controlled watch maps and no OSError from add-watch escapes Inotify.read_events "
@@ -42,7 +51,7 @@ def run(ctx) -> None:
         "DirDeletedEvent(watch.path), stops and returns before any diff (polling); the reader loop terminates on root DELETE_SELF and root IGNORED",
         floor=4,
     )
-    RS = ctx.rule("C07/swallow-is-local", "an absorbed add-watch failure keeps the record that triggered it (it is appended before the handler continues)", floor=1)
+    RS = ctx.rule("C07/swallow-is-local", "an absorbed add-watch failure keeps the record that triggered it (the record is appended on every path that absorbs a failure)", floor=1)
 
     # ---------------------------------------------------------------- (a) reader exception flow
     cfg = ReaderCfg(P, fault=True, key_errors=True)
@@ -206,7 +215,9 @@ def run(ctx) -> None:
         for i, e in enumerate(evs):
             if e.kind == "caught" and e.text.startswith("OSError") and e.fn.endswith("read_events"):
                 n += 1
-                appended = any(x.kind == "call" and x.extra.get("func") == "event_list.append" for x in evs[:i])
+                # the record must be appended somewhere on this path (before the handler leaves the iteration, or after an
+                # absorbed failure that lets the iteration go on)
+                appended = any(x.kind == "call" and x.extra.get("func") in (READER_LIST[0] + ".append", READER_LIST[0] + ".extend") and "InotifyEvent(" in (x.extra.get("args") or [""])[0] for x in evs)
                 ctx.check(appended, RS, f"read_events absorbed add-watch failure [{flag_kind(p)}]", "the record is dropped when its add-watch fails: the event for a directory that vanished right after creation is lost", f"{fi.module.relpath}:{e.line}")
     if n == 0:
         ctx.viol(RS, "read_events absorbed add-watch failure", "no absorbed add-watch failure in read_events", fi.loc)
@@ -227,11 +238,12 @@ VARIANTS = [
     dict(name="B drop try/except around _add_watch", expect="fire", rule="C07/", edits=[(IC, "                    try:\n                        self._add_watch(src_path, self._event_mask)\n                    except OSError:\n                        continue\n", "                    self._add_watch(src_path, self._event_mask)\n")]),
     dict(name="B drop wd == -1 filter", expect="fire", rule="C07/thread-body-exception-flow", edits=[(IC, "                if wd == -1:\n                    continue\n", "")]),
     dict(name="B no stop() on root deletion", expect="fire", rule="C07/root-deletion", edits=[(IN, "                self.queue_event(cls(src_path))\n                self.stop()", "                self.queue_event(cls(src_path))")]),
-    dict(name="B continue before append", expect="fire", rule="C07/swallow-is-local", edits=[(IC, "                event_list.append(inotify_event)\n\n                if (\n                    self.is_recursive\n                    and inotify_event.is_directory\n                    and inotify_event.is_moved_to", "                if (\n                    self.is_recursive\n                    and inotify_event.is_directory\n                    and inotify_event.is_moved_to"), (IC, "                    event_list.extend(_recursive_simulate(src_path))", "                    event_list.extend(_recursive_simulate(src_path))\n                event_list.append(inotify_event)")]),
+    dict(name="B record appended only after a successful add-watch", expect="fire", rule="C07/swallow-is-local", edits=[(IC, "                event_list.append(inotify_event)\n\n                if self.is_recursive and inotify_event.is_directory and inotify_event.is_create:", "                if self.is_recursive and inotify_event.is_directory and inotify_event.is_create:"), (IC, "                    event_list.extend(_recursive_simulate(src_path))", "                    event_list.append(inotify_event)\n                    event_list.extend(_recursive_simulate(src_path))\n                else:\n                    event_list.append(inotify_event)")]),
     dict(name="B polling keeps running after root loss", expect="fire", rule="C07/root-deletion", edits=[(PO, "                self.queue_event(DirDeletedEvent(self.watch.path))\n                self.stop()\n                return", "                self.queue_event(DirDeletedEvent(self.watch.path))\n                return")]),
     dict(name="B reader ignores root IGNORED", expect="fire", rule="C07/root-deletion", edits=[(IB, "                    if inotify_event.src_path == self._inotify.path:\n                        # Watch was removed explicitly (inotify_rm_watch(2)) or automatically (file\n                        # was deleted, or filesystem was unmounted), stop watching for events\n                        deleted_self = True\n                    continue", "                    continue")]),
     dict(name="B moved_from lookup without membership test", expect="fire", rule="C07/thread-body-exception-flow", edits=[(IC, "        if destination_event.cookie in self._moved_from_events:\n            return self._moved_from_events[destination_event.cookie].src_path\n\n        return None", "        return self._moved_from_events[destination_event.cookie].src_path")]),
-    dict(name="E suppress -> try/except/pass", expect="silent", edits=[(IC, "                    with contextlib.suppress(OSError):\n                        self._add_dir_watch(inotify_event.src_path, self._event_mask, recursive=True)", "                    try:\n                        self._add_dir_watch(inotify_event.src_path, self._event_mask, recursive=True)\n                    except OSError:\n                        pass")]),
+    dict(name="E suppress -> try/except/pass", expect="silent", edits=[(IC, "                        with contextlib.suppress(OSError):\n                            self._add_dir_watch(inotify_event.src_path, self._event_mask, recursive=True)", "                        try:\n                            self._add_dir_watch(inotify_event.src_path, self._event_mask, recursive=True)\n                        except OSError:\n                            pass")]),
+    dict(name="B arrival absorbs only FileNotFoundError", expect="fire", rule="C07/thread-body-exception-flow", edits=[(IC, "                        with contextlib.suppress(OSError):\n                            self._add_dir_watch(inotify_event.src_path", "                        with contextlib.suppress(FileNotFoundError):\n                            self._add_dir_watch(inotify_event.src_path")]),
     dict(name="E get(...) -> membership test + lookup", expect="silent", edits=[(IC, "if self._wd_for_path.get(path) == wd:", "if path in self._wd_for_path and self._wd_for_path[path] == wd:")]),
     dict(name="E pop with default", expect="silent", edits=[(IC, "                        moved_wd = self._wd_for_path[move_src_path]\n                        del self._wd_for_path[move_src_path]", "                        moved_wd = self._wd_for_path.pop(move_src_path)")]),
 ]
